@@ -52,7 +52,7 @@ def group_blocks(lines: list[str], blocks: list[list[str]]) -> list[Group]:
     groups: list[Group] = []
     cur: Group | None = None
     for i, (ln, blk) in enumerate(zip(lines, blocks)):
-        op = ln[3:] if ln.startswith('op ') else ln
+        op = ln[3:] if ln.startswith('op ') else ln[4:] if ln.startswith('op! ') else ln
         if op == 'yield' and cur is not None:
             cur.add_block(op, blk, first=False)
             continue
